@@ -47,6 +47,16 @@ def _repair_namespace():
 
 _repair_namespace()
 
+if os.environ.get('ZTR_COV_RC'):
+    # line coverage of the runner under the checks' workloads (harness/
+    # linecov.sh): which anchored code the monitors' workloads never reach
+    try:
+        import coverage
+        os.environ['COVERAGE_PROCESS_START'] = os.environ['ZTR_COV_RC']
+        coverage.process_startup()
+    except Exception:
+        pass
+
 if os.environ.get('ZOPE_TESTRUNNER_VERIF') == '1':
     try:
         import ztr_monitor
